@@ -43,6 +43,9 @@ Definition expected_parse_skeleton : list (string * string) :=
    ("", "ret.parse_local_functions");
    ("", "ret.parse_debug_sections");
    ("", "producers.add_processed_by");
-   ("if letSome(on_parse)=&config.on_parse", "on_parse(..)")].
+   ("if letSome(on_parse)=&config.on_parse", "on_parse(..)");
+   ("custom-section dispatch arm", "'producers'");
+   ("custom-section dispatch arm", "'name'");
+   ("custom-section dispatch arm", "name")].
 Theorem parse_skeleton_pinned : parse_skeleton = expected_parse_skeleton.
 Proof. reflexivity. Qed.
